@@ -157,7 +157,7 @@ def run_cli_case(case):
                 f.write(text.encode("utf-8", "surrogateescape"))
         env = {"VSH_LOG": os.path.join(d, "vsh.log"), "EDITOR": C.VSH, "VISUAL": C.VSH}
         env.update(case.get("env") or {})
-        rc, out, err = C.run_just(case["argv"], d, env=env, timeout=20)
+        rc, out, err = C.run_just(case["argv"], os.path.join(d, case["cwd"]) if case.get("cwd") else d, env=env, timeout=20)
         text = (out + err).decode("utf-8", "replace")
         if rc is None:
             return "timeout", text[-400:]
@@ -464,6 +464,11 @@ def run(report):
         (sh + "q $a $b='x' +$c='y':\n  echo\n" + body, {}), (sh + "export a := 'x'\nunexport b\n" + body, {}),
         (sh + "mod? nothere\nimport? 'nothere.just'\n" + body, {}), (sh + "mod m 'm.just'\n" + body, {"m.just": "mod n 'm.just'\n"}),
         (sh + "import 'a.just'\n" + body, {"a.just": "import 'justfile'\n"}), (sh + "mod m\n" + body, {"m/justfile": "x:\n", "m.just": "x:\n"}),
+        # module paths that lead out of the directory of the file that names them, with one, two and no candidate files
+        # (`@cwd`: the justfile is written to that subdirectory and just runs there)
+        (sh + "mod m '../x'\n" + body, {"@cwd": "w", "x/mod.just": "x:\n", "x/justfile": "x:\n"}), (sh + "mod m '../x'\n" + body, {"@cwd": "w", "x/mod.just": "x:\n"}),
+        (sh + "mod m '../x'\n" + body, {"@cwd": "w", "x/.keep": ""}), (sh + "mod m 'd/../../x'\n" + body, {"@cwd": "w", "x/JUSTFILE": "x:\n", "x/.Justfile": "x:\n"}),
+        (sh + "mod m '..'\n" + body, {"@cwd": "w"}), (sh + "mod m '.'\n" + body, {}), (sh + "mod m '/'\n" + body, {}), (sh + "import '..'\n" + body, {"@cwd": "w"}),
         (sh + "alias q := r\nalias q2 := q\n" + body, {}), (sh + "q: (r 'a' 'b' 'c') (s)\n" + body, {}),
         (sh + "x := `exit 1`\n" + body, {}), (sh + "x := shell('exit 3')\n" + body, {}), (sh + "x := env('NOPE_%d')\n" % 1 + body, {}),
         (sh + "x := error('boom')\n" + body, {}), (sh + "x := assert('a' == 'b', 'm')\n" + body, {}), (sh + "x := if 'a' =~ '(' { 'b' } else { 'c' }\n" + body, {}),
@@ -479,10 +484,11 @@ def run(report):
     ]
     for text, files in hostile:
         fl = dict(files)
-        fl["justfile"] = text
+        sub = fl.pop("@cwd", None)
+        fl[(sub + "/justfile") if sub else "justfile"] = text
         for argv in (["r"], ["r", "1", "2", "3"], ["s"], ["q"], ["--evaluate"], ["--list"], ["--dump"], ["--dump", "--dump-format", "json"], ["--summary"],
                      ["--dry-run", "r"], ["--choose", "--chooser", C.VSH], ["--command", C.VSH, "x"], ["--show", "q"], ["m::x"], ["--usage", "r"]):
-            cases.append({"kind": "hostile", "files": fl, "argv": argv})
+            cases.append({"kind": "hostile", "files": fl, "argv": argv, "cwd": sub})
     n_host = len(cases) - n_cli - n_fn - n_par - n_line - n_ref
     results = C.pmap(run_cli_case, cases)
     for c, (kind, text) in zip(cases, results):
